@@ -363,7 +363,7 @@ func c08Iface(info *runInfo, res *verifsim.Result, h *history, ifn string, unica
 		}
 		// likewise a link-down event: the generation is being re-established when
 		// the stop arrives
-		if e.K == "act.link" && e.S == "down" && e.Err == "" && e.If == ifn && e.Seq > live.dialSeq && e.Seq < stopSeq {
+		if e.K == "act.link" && isDown(e.S) && e.Err == "" && e.If == ifn && e.Seq > live.dialSeq && e.Seq < stopSeq {
 			res.Probe("link_down_before_stop")
 			if !heldLater {
 				return
